@@ -56,6 +56,7 @@ def handlers : List (String × (Case → String)) := [
   ("plugin", Drivers.Plugin.run),
   ("resub", Drivers.Resub.run),
   ("subject", Drivers.Subject.run),
+  ("subjx", Drivers.Subject.runX),
   ("subjlin", Drivers.SubjLin.run),
   ("rate", Drivers.Rate.run),
   ("chan", Drivers.Chan.run),
